@@ -93,6 +93,7 @@ static void
 wb(void)
 {
   if (bad_cb) printf(" SPEC-FAIL:callback-arguments-or-user-data");
+  if (tree_height() > ZIX_BTREE_MAX_HEIGHT) printf(" SPEC-FAIL:height-%u-exceeds-ZIX_BTREE_MAX_HEIGHT", tree_height());
   bad_cb = 0;
 #ifdef NDEBUG
   printf(" | cmp=%d", cmp_calls);
